@@ -60,9 +60,29 @@ RD = dict(prop='C04', harness='harness/C04/pages.c', entry='h_c04_read_dictionar
           includes=['src'], loop_contracts=True, min_loop_obligations=1, extra_sources=[], cbmc_flags=MF,
           checks=['--memory-leak-check'], trusted=T_STUBS[:1], functions=['carquet_read_dictionary_page'], wip=True)
 JOBS += [
-    dict(name='c04_read_dictionary_page', defines=['PG_MEMCPY_SMALL=1', 'PG_NOT_FLBA=1'], **RD),
-    dict(name='c04_read_dictionary_page_flba16', defines=['PG_MEMCPY_SMALL=1', 'PG_FLBA=16'], level='bounded',
-         bound='FIXED_LEN_BYTE_ARRAY columns with type_length == 16', **RD),
+    dict(name='c04_read_dictionary_page', defines=['PG_MEMCPY_SMALL=1', 'PG_NOT_FLBA=1'], est_s=80,
+         note='FINDING F7 (genuine, native demo /tmp/pagesites/native/demo.c mode 7): byte-array dictionary entry with len >= 0xFFFFFFFC: '
+              '`size_t entry_size = 4 + len` is evaluated in 32-bit arithmetic and wraps (len=0xFFFFFFFD -> entry_size=1), the entry is accepted and '
+              'later handed out with length -3. Only failing obligation: loop invariant (every accepted entry lies inside the page). '
+              'Proposed fix: size_t entry_size = (size_t)4 + len;', **RD),
+    dict(name='c04_read_dictionary_page_flba16', defines=['PG_MEMCPY_SMALL=1', 'PG_FLBA=16'], level='bounded', est_s=45,
+         bound='FIXED_LEN_BYTE_ARRAY columns with type_length == 16', wip_override=False,
+         note='validated: with 821768a reverted the memcpy source-range obligation fails', **RD),
+]
+
+RDP = dict(prop='C04', harness='harness/C04/pages.c', entry='h_c04_read_data_page_v1', overlays=['contracts/page_reader.ovl'],
+           includes=['src'], loop_contracts=False, unwind=5, unwindset=['bit_width_for_max.0:17'], object_bits=10, extra_sources=[], cbmc_flags=MF,
+           checks=['--memory-leak-check'],
+           trusted=T_STUBS[:1] + ['stubs/pages_stubs.c: carquet_rle_decode_levels / carquet_rle_decode_all / carquet_decode_plain / carquet_dispatch_gather_* as contracts'],
+           functions=['carquet_read_data_page_v1', 'decode_levels_rle', 'bit_width_for_max'], level='bounded', wip=False, est_s=60,
+           note='validated: index validation off-by-one (fixed-width and byte-array) and missing clamp to max_values are caught')
+_TYPES = ['boolean', 'int32', 'int64', 'int96', 'float', 'double', 'byte_array', 'flba16', 'invalid8']
+JOBS += [
+    dict(name='c04_read_data_page_v1_b3_%s' % t,
+         defines=['PG_MEMCPY_SMALL=1', 'PG_DECODE_STUBS=1', 'PG_MAXV=3', 'PG_TYPE=%d' % k] + (['PG_FLBA=16'] if k == 7 else []),
+         tier='quick' if t in ('int32', 'byte_array', 'flba16') else 'thorough',
+         bound='max_values <= 3; column type %s; BYTE_ARRAY dictionaries with <= 3 entries' % t, **RDP)
+    for k, t in enumerate(_TYPES)
 ]
 
 for _j in JOBS:
